@@ -3,10 +3,16 @@ import itertools, random
 from .. import core, hist, world as W
 from .c01 import fix_disagreements
 
-MODULES = ['DsdVerif.Props.C11']
-GEN_FILES = []
+MODULES = ['DsdVerif.Props.C11', 'DsdVerif.Props.PyIdent2']
+GEN_FILES = ['PyIdentifiers2']
 THEOREM_NAMES = ['sortBy_perm', 'sortBy_sorted', 'sortBy_perm_invariant', 'macro_perm_invariant', 'macro_canon_spec', 'macro_injective', 'reaction_perm_invariant', 'reaction_lists_sorted', 'reaction_canon_iff']
-THEOREMS = ['Dsd.C11.' + t for t in THEOREM_NAMES] + ['Dsd.C11.macroRequestFull_eq', 'Dsd.C11.reactionRequestFull_eq']
+THEOREMS = ['Dsd.C11.' + t for t in THEOREM_NAMES] + ['Dsd.C11.macroRequestFull_eq', 'Dsd.C11.reactionRequestFull_eq'] + \
+    ['Dsd.PyIdent2.' + t for t in (
+        # MacrostateS.identifiers / ReactionS.identifiers as written in the source (translator/pyident2.py -> Gen/PyIdentifiers2.lean)
+        'py_MacrostateS_identifiers_eq', 'macroRequestFull_eq_py', 'py_macro_request', 'py_macro_perm_invariant', 'py_macro_canon_spec',
+        'py_MacrostateS_identifiers_examples', 'py_ReactionS_identifiers_eq', 'reactionRequestFull_eq_py', 'py_reaction_request',
+        'py_reaction_perm_invariant', 'py_reaction_ok', 'py_reaction_canon_iff', 'py_ReactionS_identifiers_examples', 'sortedByM_eq',
+        'sortedMembers_eq', 'sortedForms_eq', 'sortedByM_empty_macro', 'ckeyLt_eq', 'sortedBy_eq')]
 ASSUMPTIONS = [
     'MacrostateS.identifiers / ReactionS.identifiers are hand-modelled (Model/Objects.lean: macroRequest, reactionRequest; sorted() is a '
     'stable insertion sort by canonical form); members are (name, canonical form) of live singleton complexes or macrostates',
@@ -21,6 +27,7 @@ MANIFEST = {
             'same clauses are checked directly on the real objects. ' 
             'Model/SetsFull.lean follows MacrostateS / ReactionS identifiers and __init__ statement by statement (sorted by canonical form, default names, representative look-up, Python truthiness in Singleton.__call__); macroRequestFull_eq / reactionRequestFull_eq prove this is exactly the net-effect model for non-empty names and homogeneous member lists (kernel-checked differences - a side mixing complexes and macrostates raises AssertionError in the code - are kept as findings).',
     'note': 'Members with equal canonical form are the same singleton object (hypothesis Singletons, discharged by C01); trusted base as in DESIGN.md 3.',
+    'source_derived': 'STATEMENT LEVEL, FROM THE SOURCE (since batch 7): translator/pyident2.py transcribes MacrostateS.identifiers and ReactionS.identifiers from the working tree (Gen/PyIdentifiers2.lean; a member is the pair of its name and canonical form; sorted(..., key=canonical_form) is a stable sort with the comparison read off ComplexS.__lt__, which raises when a complex meets a macrostate); PyIdent2.py_MacrostateS_identifiers_eq / py_ReactionS_identifiers_eq give the closed forms for every argument, macroRequestFull_eq_py / reactionRequestFull_eq_py show the statement-level model is callFull on the translated identifiers for every registry, and py_macro_perm_invariant, py_reaction_perm_invariant, py_macro_canon_spec, py_reaction_canon_iff are C11 for the code as written (one kernel-checked corner: the empty macrostate tuple, which cannot be constructed); streams MacrostateS.identifiers.source-derived / ReactionS.identifiers.source-derived on real member objects.',
     'technique': 'Lean 4 proofs: sorted permutations under a strict total order are equal; correspondence check on histories',
 }
 
@@ -247,6 +254,9 @@ def run(res, proof):
             fix_disagreements(res, lines, impl, model)
     except core.DriverBroken as e:
         proof.problem('driver', str(e))
+    # MacrostateS.identifiers / ReactionS.identifiers as translated from the working tree (Gen/PyIdentifiers2.lean) against the real classmethods
+    from .pyident2_stream import source_derived_pyident2
+    source_derived_pyident2(res, proof)
     res.sample(lines[:12])
 
 
